@@ -47,7 +47,7 @@ class VR(CallableModel):
         self.q.rsample(samples)
         log_w = (1.0 - self.alpha) * (self.p() - self.q())
         log_w_mean = torch.logsumexp(log_w, dim=-1) - math.log(log_w.shape[-1])
-        return log_w_mean.sum(-1) / (1.0 - self.alpha)
+        return log_w_mean.mean() / (1.0 - self.alpha)
 
     def handle_parameter_changed(self, variable, index, event):
         pass
